@@ -653,8 +653,8 @@ func (w *world) events(res chainx.Result) []string {
 	return es
 }
 
-// execBlock executes a group of op lines as the transactions of one block and returns the stamped op lines
-// and the observation lines.
+// execBlock executes a group of op lines as the transactions of one block, records the stamped op lines and the
+// observation lines (run.Op) and returns them.
 func (w *world) execBlock(lines []string) (stamped, obs []string) {
 	ps := make([]*parsedOp, len(lines))
 	txs := make([]*transaction.Transaction, len(lines))
@@ -692,6 +692,8 @@ func (w *world) execBlock(lines []string) (stamped, obs []string) {
 			sb.WriteString(" | ~")
 		}
 		obs = append(obs, sb.String())
+		// recorded before the monitor looks at it, so that a reported violation carries the op that caused it
+		w.run.Op(st, sb.String())
 		if w.wf {
 			var o *observation
 			if last {
@@ -1404,10 +1406,7 @@ func TestRun(t *testing.T) {
 			if len(pending) == 0 {
 				return
 			}
-			st, obs := w.execBlock(pending)
-			for i := range st {
-				run.Op(st[i], obs[i])
-			}
+			w.execBlock(pending)
 			pending = nil
 		}
 		for _, l := range run.ReplayLines() {
@@ -1469,7 +1468,6 @@ func TestRun(t *testing.T) {
 			}
 			st, obs := w.execBlock(lines)
 			for j := range st {
-				run.Op(st[j], obs[j])
 				if len(first) < 8 {
 					o := obs[j]
 					if len(o) > 300 {
